@@ -5,16 +5,22 @@ import threading
 
 
 class Trace:
-    __slots__ = ("events", "clock", "_lock")
+    __slots__ = ("events", "clock", "_lock", "_last")
 
     def __init__(self, clock):
         self.events = []
         self.clock = clock
         self._lock = threading.Lock()
+        self._last = 0.0
 
     def ev(self, actor, kind, **detail):
         with self._lock:
-            self.events.append((len(self.events), self.clock(), actor, kind, detail))
+            try:
+                t = self.clock()
+                self._last = t
+            except RuntimeError:  # called from an executor thread (WSGI): the trio clock is loop-bound
+                t = self._last
+            self.events.append((len(self.events), t, actor, kind, detail))
 
     def select(self, actor=None, kind=None):
         return [
